@@ -5,8 +5,15 @@
   name list is pairwise distinct (so swaps, chains `A ↦ B, B ↦ C` and permutations are
   allowed), and every new name is an identifier.  `renameDemes` is a pure function, so "the
   original graph is untouched" holds by construction: `g` is the same value before and after.
+
+  `renameDemes` is the renaming itself; `renameDemesChecked` (Model/Views.lean) is
+  `Graph.rename_demes` as it is since the repair of defect F23: the renaming followed by the
+  validation "every resulting name is an identifier and the resulting names are pairwise distinct"
+  (`renameNamesOk`), `ValueError` otherwise.  Section 6 shows that the checked function returns a
+  valid graph for EVERY renaming it accepts (no `RenameOK` needed), rejects exactly the others,
+  and agrees with `renameDemes` on every `RenameOK` renaming — so sections 1–5 apply to it.
 -/
-import DemesVerif.Proofs.Rename
+import DemesVerif.Proofs.RenameChecked
 namespace Demes.Theorems
 open Demes Demes.Spec
 
@@ -105,6 +112,57 @@ theorem rename_inverse (g : Graph) (r : Renaming) (hv : validGraph g = true) (hr
     renameDemes (renameDemes g r) (inverseRenaming r) = g :=
   Proofs.rename_inverse g r hv hr
 
+/-! ### 6. the checked function (`Graph.rename_demes` with its validation, repair of F23) -/
+
+/-- What the validation checks: the last two clauses of `RenameOK` — the resulting names are
+pairwise distinct and are identifiers.  (Nothing is asked of the keys of `r`.) -/
+theorem renameNamesOk_iff (g : Graph) (r : Renaming) :
+    renameNamesOk g r = true ↔
+      (g.demes.map (fun d => r.apply d.name)).Nodup
+      ∧ (∀ d ∈ g.demes, isIdentifier (r.apply d.name) = true) :=
+  Proofs.renameNamesOk_iff g r
+
+/-- The checked function succeeds exactly when the validation passes, and then returns the
+renamed graph. -/
+theorem renameChecked_ok_iff (g : Graph) (r : Renaming) (g' : Graph) :
+    renameDemesChecked g r = .ok g' ↔ renameNamesOk g r = true ∧ g' = renameDemes g r :=
+  Proofs.renameChecked_ok_iff g r g'
+
+/-- **Whatever the checked function returns is a valid graph — for EVERY renaming** (keys that
+name no deme, chains, swaps, anything): the validity half of C15 uses of `RenameOK` only the two
+clauses that the validation enforces. -/
+theorem renameChecked_valid (g : Graph) (r : Renaming) (g' : Graph) (hv : validGraph g = true)
+    (h : renameDemesChecked g r = .ok g') : validGraph g' = true :=
+  Proofs.renameChecked_valid g r g' hv h
+
+/-- A renaming that fails the validation is rejected with `ValueError`. -/
+theorem renameChecked_rejects (g : Graph) (r : Renaming) (h : renameNamesOk g r = false) :
+    renameDemesChecked g r = .error ⟨.value, "invalid or colliding deme names after renaming"⟩ :=
+  Proofs.renameChecked_rejects g r h
+
+/-- … and only those are rejected. -/
+theorem renameChecked_error_iff (g : Graph) (r : Renaming) :
+    (∃ e, renameDemesChecked g r = .error e) ↔ renameNamesOk g r = false :=
+  Proofs.renameChecked_error_iff g r
+
+/-- Every legitimate renaming is accepted, with the result of `renameDemes`: all the theorems of
+sections 1–5 are theorems about the checked function. -/
+theorem renameOK_implies_checked (g : Graph) (r : Renaming) (h : RenameOK g r) :
+    renameDemesChecked g r = .ok (renameDemes g r) :=
+  Proofs.renameOK_implies_checked g r h
+
+/-- `graph[new name]` and `name in graph` in the result of the checked function, for every
+renaming it accepts. -/
+theorem renameChecked_lookup (g : Graph) (r : Renaming) (g' : Graph)
+    (h : renameDemesChecked g r = .ok g') {d : Deme} (hd : d ∈ g.demes) :
+    g'.deme? (r.apply d.name) = some (renamedDeme r d) :=
+  Proofs.renameChecked_lookup g r g' h hd
+
+theorem renameChecked_hasName (g : Graph) (r : Renaming) (g' : Graph)
+    (h : renameDemesChecked g r = .ok g') (x : String) :
+    g'.hasName x = true ↔ ∃ d ∈ g.demes, x = r.apply d.name :=
+  Proofs.renameChecked_hasName g r g' h x
+
 /-! ### non-vacuity and the former defect F8 (swaps and chains) -/
 
 /-- the swap `{A ↦ B, B ↦ A}` on the two-deme example graph -/
@@ -162,6 +220,47 @@ example :
 /-- renaming back restores the example graphs (instances of `rename_inverse`) -/
 example : (renameDemes (renameDemes Proofs.exampleGraph3 cycle3) (inverseRenaming cycle3)).demes
     = Proofs.exampleGraph3.demes := by
+  decide +kernel
+
+/-! ### non-vacuity of section 6 and the former defect F23 -/
+
+/-- accepted: swap, chain, 3-cycle — with the results shown above -/
+example : renameDemesChecked Proofs.exampleGraph swapAB = .ok (renameDemes Proofs.exampleGraph swapAB) :=
+  renameOK_implies_checked _ _ (by decide +kernel)
+example : (renameDemesChecked Proofs.exampleGraph chainABC).toOption.map (fun g' => (validGraph g', g'.index))
+    = some (true, [("B", 0), ("C", 1)]) := by decide +kernel
+example : (renameDemesChecked Proofs.exampleGraph3 cycle3).toOption.map (fun g' => (validGraph g', g'.index))
+    = some (true, [("B", 0), ("C", 1), ("A", 2)]) := by decide +kernel
+
+/-- accepted although not `RenameOK` (a key that names no deme, a repeated key — the first
+occurrence wins): `renameChecked_valid` covers it, `rename_valid` does not -/
+example : ¬ RenameOK Proofs.exampleGraph3 Proofs.sloppyRenaming
+    ∧ validGraph Proofs.exampleGraph3 = true
+    ∧ renameNamesOk Proofs.exampleGraph3 Proofs.sloppyRenaming = true
+    ∧ (renameDemesChecked Proofs.exampleGraph3 Proofs.sloppyRenaming).toOption.map
+        (fun g' => (validGraph g', g'.index)) = some (true, [("X", 0), ("B", 1), ("C", 2)]) := by
+  decide +kernel
+
+/-- rejected: a new name that is not an identifier (F23: `rename_demes` used to return the
+invalid graph) -/
+example : renameNamesOk Proofs.exampleGraph [("A", "1x")] = false
+    ∧ renameNamesOk Proofs.exampleGraph [("B", "b c")] = false
+    ∧ renameNamesOk Proofs.exampleGraph [("B", "")] = false
+    ∧ validGraph (renameDemes Proofs.exampleGraph [("A", "1x")]) = false := by decide +kernel
+example : renameDemesChecked Proofs.exampleGraph [("A", "1x")]
+    = .error ⟨.value, "invalid or colliding deme names after renaming"⟩ :=
+  renameChecked_rejects _ _ (by decide +kernel)
+
+/-- rejected: a new name that collides with the name of a deme that is not renamed (F23:
+`rename_demes` used to return a graph with two demes `B` and a one-entry name index) -/
+example : renameNamesOk Proofs.exampleGraph [("A", "B")] = false
+    ∧ (renameDemes Proofs.exampleGraph [("A", "B")]).demes.map (·.name) = ["B", "B"]
+    ∧ (renameDemes Proofs.exampleGraph [("A", "B")]).index = [("B", 1)]
+    ∧ validGraph (renameDemes Proofs.exampleGraph [("A", "B")]) = false := by decide +kernel
+example : (renameDemesChecked Proofs.exampleGraph [("A", "B")]).toOption.isSome = false := by
+  decide +kernel
+/-- rejected: two demes renamed to the same new name -/
+example : (renameDemesChecked Proofs.exampleGraph3 [("A", "Z"), ("C", "Z")]).toOption.isSome = false := by
   decide +kernel
 
 end Demes.Theorems
